@@ -43,6 +43,7 @@ struct Knobs {
         double p_long_run = 0.03;
         double p_cut_crlf = 0.08;
         double p_other = 0.15; // a second parser instance runs in between
+        double p_ev_release = 0.15; // event handlers that release a hold
         int max_svc_gap = 60;
         bool observe = true;
         bool scribble = false;
@@ -343,7 +344,7 @@ struct Gen {
                                                         st.act = A_TRIG;
                                                         st.a = evs[r.below(evs.size())];
                                                         st.b = r.coin() ? CT_READ : CT_TEST;
-                                                } else if (c.ev && r.chance(0.1)) {
+                                                } else if (c.ev && r.chance(K.p_ev_release * 0.7)) {
                                                         st.act = A_HEXIT;
                                                         st.a = (int)r.below(2);
                                                 }
@@ -351,7 +352,7 @@ struct Gen {
                                 // event handlers may release a hold through their return code
                                 if (c.ev && !stat_ev)
                                         for (int k : {K_READ, K_TEST})
-                                                if (c.h[k] && !c.script[k].empty() && r.chance(0.15))
+                                                if (c.h[k] && !c.script[k].empty() && r.chance(K.p_ev_release))
                                                         c.script[k].back().code = r.coin() ? RC_HOLD_EXIT_OK : RC_HOLD_EXIT_ERROR;
                         }
                 }
@@ -989,9 +990,14 @@ struct Gen {
                                 o.data = rd.vals[v];
                                 p.ops.push_back(o);
                         }
-                        if (nev && r.chance(0.5))
+                        if (nev && r.chance(0.3))
                                 op(OP_TRIG, ncmd + (int)r.below((uint64_t)nev), r.coin() ? CT_READ : CT_TEST);
-                        op(OP_ROUNDTRIP, rd.cmd);
+                        if (nev && r.chance(0.5)) {
+                                // the event arrives while the READ line is being parsed / formatted / flushed
+                                int span = 8 + (int)p.cmds[(size_t)rd.cmd].name.size() * (ncmd + nev + 1) + 40;
+                                op(OP_ROUNDTRIP, rd.cmd, ncmd + (int)r.below((uint64_t)nev) + 1, r.coin() ? CT_READ : CT_TEST, r.range(0, span));
+                        } else
+                                op(OP_ROUNDTRIP, rd.cmd);
                         if (r.chance(0.3))
                                 faults_maybe();
                 }
@@ -1081,6 +1087,10 @@ struct Gen {
                 int nlines = (int)r.range(2, 10);
                 faults_maybe();
                 bytes batch;
+                std::vector<int> c20_evs;
+                for (size_t i = 0; i < p.cmds.size(); i++)
+                        if (p.cmds[i].ev)
+                                c20_evs.push_back((int)i);
                 auto flush = [&]() {
                         if (batch.empty())
                                 return;
@@ -1116,6 +1126,8 @@ struct Gen {
                                 op(OP_QUIESCE, 200000);
                         } else if (r.chance(0.5))
                                 flush();
+                        if (!c20_evs.empty() && r.chance(0.3))
+                                op(OP_TRIG, c20_evs[r.below(c20_evs.size())], r.coin() ? CT_READ : CT_TEST);
                         if (batch.empty() && r.chance(0.15)) {
                                 int ci = (int)r.below(p.cmds.size());
                                 const CmdSpec &c = p.cmds[(size_t)ci];
@@ -1391,8 +1403,9 @@ void knobs_for(const std::string &prop, Knobs &K, Rng &r)
                 K.p_only_test = 0.2;
                 K.p_badcode = 0.3;
         } else if (prop == "C20") {
-                K.p_events = 0.0; // complete byte streams of the sequence and of the isolated lines are compared
-                K.p_trig_act = 0.0;
+                K.p_ev_release = 0.0; // the isolated-lines twin has no event traffic: releases come from the plan only
+                K.p_events = 0.4; // without events the complete byte streams of the sequence and of the isolated lines are compared
+                K.p_trig_act = 0.05;
                 K.max_cmds = 8;
         } else if (prop == "C16") {
                 K.p_mutex = 1.0;
